@@ -12,6 +12,7 @@ import (
 	"net/url"
 	"regexp"
 	"strings"
+	"unicode"
 
 	"github.com/trustbloc/sidetree-core-go/pkg/document"
 )
@@ -281,6 +282,11 @@ func validateURIs(uris []string) error {
 func validateURI(uri string) error {
 	if uri == "" {
 		return errors.New("service endpoint URI is empty")
+	}
+
+	// url.ParseRequestURI tolerates raw spaces (and other Unicode white space) inside and after a URI
+	if strings.IndexFunc(uri, func(r rune) bool { return unicode.IsSpace(r) || unicode.IsControl(r) }) >= 0 {
+		return fmt.Errorf("service endpoint '%s' is not a valid URI: contains white space or control characters", uri)
 	}
 
 	if _, err := url.ParseRequestURI(uri); err != nil {
